@@ -161,7 +161,29 @@ impl RunLog {
     }
 }
 
+/// executions repeated because the watchdog killed an epoch process (see `exec_plan`)
+pub static WATCHDOG_RETRIES: std::sync::atomic::AtomicU64 = std::sync::atomic::AtomicU64::new(0);
+
+/// One execution of a plan from an empty simulated disk. The watchdog is the one place where real
+/// time enters the harness: if the whole machine stalls for longer than the limit (a paused or
+/// snapshotted VM, a frozen disk) it kills epoch processes that were doing nothing wrong. A plan is
+/// a pure function of its text, so such an execution is simply repeated (twice at most, from a
+/// fresh disk); an expansion that really never finishes hangs again each time and is reported as
+/// before.
 pub fn exec_plan(exe: &Path, plan: &Plan, scratch: &Scratch, full: bool) -> Result<RunLog, HarnessError> {
+    let mut attempt = 0;
+    loop {
+        match exec_plan_once(exe, plan, scratch, full) {
+            Err(e) if attempt < 2 && e.0.contains("watchdog timeout") => {
+                attempt += 1;
+                WATCHDOG_RETRIES.fetch_add(1, std::sync::atomic::Ordering::SeqCst);
+            }
+            r => return r,
+        }
+    }
+}
+
+fn exec_plan_once(exe: &Path, plan: &Plan, scratch: &Scratch, full: bool) -> Result<RunLog, HarnessError> {
     scratch.reset()?;
     let mut epochs = vec![];
     for e in &plan.epochs {
